@@ -641,7 +641,16 @@ def _array_comp_helper(a, b):
         b = unyt_array(b)
     au = getattr(a, "units", NULL_UNIT)
     bu = getattr(b, "units", NULL_UNIT)
-    if bu != au and au != NULL_UNIT and bu != NULL_UNIT:
+    if bu != au and (
+        (au != NULL_UNIT and bu != NULL_UNIT)
+        or (
+            # two pure numbers written with different scales (percent, km/m)
+            hasattr(a, "units")
+            and hasattr(b, "units")
+            and au.is_dimensionless
+            and bu.is_dimensionless
+        )
+    ):
         b = b.in_units(au)
     elif bu == NULL_UNIT:
         b = np.array(b) * au
